@@ -54,9 +54,10 @@ theorem rank_induction {c : Circuit} (hcl : ∀ g ∈ c.gates, ∀ o ∈ g.ops, 
 
 /-- **Uniqueness of the denotational semantics**: two Boolean valuations of a well-formed
 circuit under the same input assignment agree on every gate. -/
-theorem valB_unique {c : Circuit} (h : WF c) {a : Label → Bool} {v v' : Label → Bool}
+theorem valB_unique_cr {c : Circuit} (hcl : ∀ g ∈ c.gates, ∀ o ∈ g.ops, o ∈ c.labels)
+    (hrk : ∃ r : Label → Nat, ∀ g ∈ c.gates, ∀ o ∈ g.ops, r o < r g.label) {a : Label → Bool} {v v' : Label → Bool}
     (hv : IsValB c a v) (hv' : IsValB c a v') : ∀ g ∈ c.gates, v g.label = v' g.label := by
-  apply rank_induction h.closed h.rank (fun g => v g.label = v' g.label)
+  apply rank_induction hcl hrk (fun g => v g.label = v' g.label)
   intro g hg ih
   have h1 := hv g hg
   have h2 := hv' g hg
@@ -66,11 +67,15 @@ theorem valB_unique {c : Circuit} (h : WF c) {a : Label → Bool} {v v' : Label 
     have : g.ops.map v = g.ops.map v' := by
       apply map_congr_mem
       intro o ho
-      obtain ⟨go, hgo, hgol⟩ := gate_of_label (h.closed g hg o ho)
+      obtain ⟨go, hgo, hgol⟩ := gate_of_label (hcl g hg o ho)
       have := ih o ho go hgo hgol
       rwa [hgol] at this
     rw [this, h2] at h1
     exact (Option.some.inj h1).symm
+
+theorem valB_unique {c : Circuit} (h : WF c) {a : Label → Bool} {v v' : Label → Bool}
+    (hv : IsValB c a v) (hv' : IsValB c a v') : ∀ g ∈ c.gates, v g.label = v' g.label :=
+  valB_unique_cr h.closed h.rank hv hv'
 
 /-- two three-valued valuations under the same assignment agree on every gate -/
 theorem val3_unique {c : Circuit} (h : WF c) {a : Label → V3} {v v' : Label → V3}
